@@ -404,7 +404,7 @@ func init() {
 					}
 					conversionCase(c, i)
 				}})
-			secs = append(secs, core.Section{Name: "conversion-special", Exhaustive: true, N: len(mutTemplates) + 6 + len(argFaultCases) + len(zeroLiterals) + 5,
+			secs = append(secs, core.Section{Name: "conversion-special", Exhaustive: true, N: len(mutTemplates) + 6 + len(argFaultCases) + len(zeroLiterals) + 5 + 5,
 				Run: func(c *core.Ctx, i int) {
 					registerConversionFuncs()
 					registerMutators()
@@ -589,10 +589,39 @@ func specialConversionCase(c *core.Ctx, i int) {
 		if !sameNative(cfLog[0].recv, int(zl.val)) || len(cfLog[0].args) != 2 || !sameNative(cfLog[0].args[0], zl.val) || !sameNative(cfLog[0].args[1], []any{zl.val}) || !sameNative(cfLog[1].recv, int(zl.val)) {
 			c.Violation("conversion:leading-zero-literal", fmt.Sprintf("the literal %s arrived as receiver %#v with arguments %#v", zl.lit, cfLog[0].recv, cfLog[0].args), desc)
 		}
+	case i < len(mutTemplates)+6+len(argFaultCases)+len(zeroLiterals)+5:
+		// a name is taken by its first registration whatever was registered, a nil function included
+		k := i - len(mutTemplates) - 6 - len(argFaultCases) - len(zeroLiterals)
+		typ := []string{"string", "array", "int", "float", "bool"}[k]
+		name := "taken" + typ
+		var first, second error
+		switch k {
+		case 0:
+			first = textwire.RegisterStrFunc(name, nil)
+			second = textwire.RegisterStrFunc(name, func(s string, a ...any) string { return "second" })
+		case 1:
+			first = textwire.RegisterArrFunc(name, nil)
+			second = textwire.RegisterArrFunc(name, func(x []any, a ...any) []any { return []any{"second"} })
+		case 2:
+			first = textwire.RegisterIntFunc(name, nil)
+			second = textwire.RegisterIntFunc(name, func(x int, a ...any) int { return 2 })
+		case 3:
+			first = textwire.RegisterFloatFunc(name, nil)
+			second = textwire.RegisterFloatFunc(name, func(x float64, a ...any) float64 { return 2 })
+		default:
+			first = textwire.RegisterBoolFunc(name, nil)
+			second = textwire.RegisterBoolFunc(name, func(x bool, a ...any) bool { return !x })
+		}
+		desc := map[string]any{"type": typ, "first_registration": "nil function", "first_error": fmt.Sprint(first), "second_error": fmt.Sprint(second)}
+		c.Input(desc)
+		c.Nontrivial("nil-registration:" + typ)
+		if first == nil && second == nil {
+			c.Violation("registry:second-registration-accepted", fmt.Sprintf("a %s function name registered twice (first with a nil function): both attempts succeeded", typ), desc)
+		}
 	default:
 		// every entry point sees the registered functions
 		recvs := []string{`"s"`, "[1, 2]", "7", "2.5", "true"}
-		rs := recvs[(i-len(mutTemplates)-6-len(argFaultCases)-len(zeroLiterals))%len(recvs)]
+		rs := recvs[(i-len(mutTemplates)-6-len(argFaultCases)-len(zeroLiterals)-5)%len(recvs)]
 		src := "<{{ " + rs + ".rec(1, \"a\") }}>{{ v.rec() }}"
 		data := map[string]any{"v": "from data"}
 		want := evalString(c, src, data)
